@@ -371,6 +371,67 @@ theorem accept_iff_full_fails : ¬ accept_iff_full := by
     ⟨_, _, _, rfl, by decide⟩
   exact this.2 (by decide)
 
+/-! ## loading a configuration -/
+
+/-- **loaded_prefixes_valid.**  Whatever prefix lengths a configuration gives, every dynamic-neighbour
+    prefix the daemon holds after loading is a prefix (length within the address length) — the
+    precondition of `contains_iff_cover`, which is therefore not an assumption on histories. -/
+theorem loaded_prefixes_valid (groups : List Group) :
+    ∀ g ∈ groups.map loadGroup, ∀ n ∈ g.nets, n.mask ≤ 8 * n.bytes.length := by
+  intro g hg n hn
+  obtain ⟨g0, _, rfl⟩ := List.mem_map.mp hg
+  simp only [loadGroup, List.mem_filter] at hn
+  simpa [Net.wf] using hn.2
+
+/-- a prefix is admitted iff it is one and the group does not have it yet (first request of a list) -/
+theorem first_prefix_admitted_iff (n : Net) (rest : List Net) :
+    (netsAdded (n :: rest) []).head? = some (decide (n.mask ≤ 8 * n.bytes.length)) := by
+  simp [netsAdded, Net.wf]
+
+/-- **api_request_refused_iff.**  An AddPeer request is refused exactly when it names neither an
+    expected AS nor a group, carries a send-max above 255, or a hold time of 1, 2 or above 65535 s. -/
+theorem api_request_refused_iff (pc : PeerCase) :
+    apiPre pc = none ↔
+      pc.api = true ∧ ((pc.params.expected = 0 ∧ pc.group = none) ∨ (∃ e ∈ pc.params.sm, e.2 > 255) ∨
+        ¬ (pc.params.hold = 0 ∨ (3 ≤ pc.params.hold ∧ pc.params.hold ≤ 65535))) := by
+  unfold apiPre
+  cases ha : pc.api with
+  | false => simp
+  | true =>
+    simp only [Bool.not_true, Bool.false_eq_true, if_false, true_and]
+    by_cases h1 : pc.params.expected = 0 ∧ pc.group = none
+    · simp [h1]
+    · have h1' : (decide (pc.params.expected = 0) && pc.group.isNone) = false := by
+        cases hg : pc.group with
+        | none => simp [hg] at h1 ⊢; exact h1
+        | some _ => simp
+      by_cases h2 : ∃ e ∈ pc.params.sm, e.2 > 255
+      · have : (pc.params.sm.any fun e => decide (e.2 > 255)) = true := by
+          simpa [List.any_eq_true] using h2
+        simp [h1', this, h2]
+      · have : (pc.params.sm.any fun e => decide (e.2 > 255)) = false := by
+          rw [Bool.eq_false_iff]; intro h; exact h2 (by simpa [List.any_eq_true] using h)
+        by_cases h3 : pc.params.hold = 0 ∨ (3 ≤ pc.params.hold ∧ pc.params.hold ≤ 65535)
+        · have : apiHoldOk pc.params.hold = true := by simpa [apiHoldOk] using h3
+          simp [h1', ‹(pc.params.sm.any fun e => decide (e.2 > 255)) = false›, this, h1, h2, h3]
+        · have : apiHoldOk pc.params.hold = false := by
+            rw [Bool.eq_false_iff]; intro h; exact h3 (by simpa [apiHoldOk] using h)
+          simp [h1', ‹(pc.params.sm.any fun e => decide (e.2 > 255)) = false›, this, h1, h2, h3]
+
+/-- what a request that is taken stands for: the default hold time for 0, no entry for a send-max of 0 -/
+theorem api_request_reading (pc x : PeerCase) (h : apiPre pc = some x) (ha : pc.api = true) :
+    x.params.hold = (if pc.params.hold = 0 then 180 else pc.params.hold) ∧
+    x.params.sm = pc.params.sm.filter (fun e => e.2 > 0) ∧ x.group = pc.group ∧
+    x.params.expected = pc.params.expected ∧ x.params.fams = pc.params.fams := by
+  unfold apiPre at h
+  simp only [ha, Bool.not_true, Bool.false_eq_true, if_false] at h
+  split at h; · cases h
+  split at h; · cases h
+  split at h; · cases h
+  simp only [Option.some.injEq] at h
+  subst h
+  simp [DEFAULT_HOLD_TIME]
+
 /-! ## master theorem -/
 
 def CaseWF : Case → Prop
